@@ -4,7 +4,7 @@ func init() {
 	register(&Spec{
 		ID:       "C16",
 		Pkgs:     []string{"rules"},
-		InitPkgs: []string{},
+		InitPkgs: []string{"filterutil", "rules"},
 		Jobs: func(tier string) []Job {
 			return []Job{
 				{Pkg: "rules", Func: "verifC16"},
